@@ -414,6 +414,12 @@ class Exec:
             names = [self.exc_name(handler_type)]
         return any(self.exc_is(exc.cls, n) for n in names)
 
+    def is_exception_class(self, name):
+        if name in BUILTIN_EXC or name in ("Exception", "BaseException", "UserWarning", "DeprecationWarning", "Warning"):
+            return True
+        ci = self.ix.cls(name)
+        return ci is not None and any(self.is_exception_class(b) for b in ci.bases)
+
     def exc_is(self, cls, base):
         if cls == base or base in ("Exception", "BaseException"):
             return True
@@ -1416,7 +1422,7 @@ class Exec:
         ci = self.ix.cls(cv.name)
         if ci is None:
             raise Unsupported(f"constructor of unknown class {cv.name}", node)
-        if self.exc_is(cv.name, "Exception"):
+        if self.is_exception_class(cv.name):
             return [Out("val", ExcV(cv.name, getattr(node, "lineno", 0)), st)]
         init = self.ix.lookup_method(cv.name, "__init__")
         obj = self.alloc_obj(st, cv.name)
@@ -1620,6 +1626,8 @@ class Exec:
             oldv = self.view(entry, bound)
             newv = self.view(o.st, bound)
             if o.kind == "return":
+                if c.ret is not None and o.val is not None and not isinstance(c.ret, ty.RefT):
+                    o.val = self.coerce(c.ret, self.to_storable(o.val), fi.node)
                 for cl in c.ensures:
                     for tag, g in self.eval_clauses(cl.fn, oldv, newv, wrap(self, o.st, o.val)):
                         nm = cl.tag if tag.startswith("#") else f"{cl.tag}.{tag}"
